@@ -1,9 +1,11 @@
 import Mp4ff.Model.Cenc
 import Mp4ff.Expect.Facts
 import Mp4ff.Lemmas.C07
+import Mp4ff.Props.C06b
 /-!
 # C07 — encrypted output is well-formed Common Encryption and matches a reference cipher
 Property theorems (proofs in `Mp4ff/Lemmas/C07.lean`, `CencRanges.lean`, `CencCipher.lean`).
+saiz / saio / senc consistency of `EncryptFragment`'s output (`encrypted_wellformed`, `aux_boxes`, `senc_size_loop`) is in `Props/C06b.lean`.
 -/
 namespace Mp4ff.Cenc.C07
 open Mp4ff.Nalu
